@@ -45,6 +45,45 @@ fn run_writer_with(p: &Program, fault: Option<(usize, FaultKind)>, chunks: &[u16
     (tr, h, r)
 }
 
+/// The two entry points that take the device itself: checksum validation of the whole file and raw XML extraction.
+/// Returns the number of device operations used.
+fn run_static(bytes: &[u8], fault: Option<usize>, chunks: &[u16]) -> Result<(usize, (bool, Option<Vec<u8>>)), String> {
+    let mut ops = 0;
+    let mut outs = (false, None);
+    for which in 0..2 {
+        let dev = MemDev::with_data(bytes.to_vec());
+        {
+            let mut st = dev.st.borrow_mut();
+            // the fault position counts through both calls
+            st.fault_at = fault.and_then(|k| k.checked_sub(ops)).map(|k| (k, kind_for(k + ops)));
+            st.chunks = chunks.iter().map(|c| *c as usize).collect();
+        }
+        let h = dev.handle();
+        let name = ["validate_crc", "raw_xml"][which];
+        let r = guard(|| if which == 0 { E57Reader::validate_crc(dev).map(|_| None) } else { E57Reader::raw_xml(dev).map(Some) });
+        match r {
+            Err(pn) => return Err(format!("{name} panicked: {pn}")),
+            Ok(Ok(x)) => {
+                if h.fault_fired() {
+                    return Err(format!("{name} reported success although the device reported an error during the call"));
+                }
+                if which == 0 {
+                    outs.0 = true;
+                } else {
+                    outs.1 = x;
+                }
+            }
+            Ok(Err(e)) => {
+                if fault.is_none() {
+                    return Err(format!("{name} failed without any device fault: {e}"));
+                }
+            }
+        }
+        ops += h.st.borrow().ops;
+    }
+    Ok((ops, outs))
+}
+
 /// The reader program: open, then every read operation once.  Returns the
 /// number of device operations used, or the violation.
 fn run_reader(bytes: &[u8], free: &[(u64, u64)], fault: Option<usize>, chunks: &[u16]) -> Result<(usize, Vec<crate::rops::OpOut>), String> {
@@ -317,6 +356,34 @@ impl Check for C16 {
                 v.fail(format!("device fault at read-side operation {k}: {e}"));
                 v.execs = execs;
                 return v;
+            }
+        }
+        match run_static(&good, None, &[]) {
+            Err(e) => {
+                v.fail(e);
+                return v;
+            }
+            Ok((n, base_static)) => {
+                for k in 0..n {
+                    execs += 1;
+                    if let Err(e) = run_static(&good, Some(k), &[]) {
+                        v.fail(format!("device fault at operation {k} of validate_crc + raw_xml: {e}"));
+                        v.execs = execs;
+                        return v;
+                    }
+                }
+                execs += 1;
+                match run_static(&good, None, &case.chunks) {
+                    Ok((_, o)) if o == base_static => {}
+                    Ok(_) => {
+                        v.fail(format!("short transfers {:?}: validate_crc / raw_xml give other results than with full transfers", case.chunks));
+                        return v;
+                    }
+                    Err(e) => {
+                        v.fail(format!("short transfers {:?}: {e}", case.chunks));
+                        return v;
+                    }
+                }
             }
         }
         if let Ok(n) = run_reader_steps(&good, None) {
